@@ -257,6 +257,47 @@ Proof.
   - apply nth_error_None in En. lia.
 Qed.
 
+(* an active carousel on ANY head (any signer list: empty, repeated, unknown ids): either there is no
+   candidate and the answer is round-robin, or the answer is a signer outside the last f proposers *)
+Lemma carousel_active_spec c cl rnd h round signers :
+  h_qc h = Some signers -> carousel_active cl h round = true -> (forall s, 0 <= rnd s)%Z ->
+  (candidates (c_n c) h signers = [] /\ carousel c cl rnd h round = choose_round_robin round (c_n c))
+  \/ exists l, carousel c cl rnd h round = Ok l /\ In l signers /\ ~ In l (last_authors (c_n c) h).
+Proof.
+  intros Hqc Hact Hrnd.
+  unfold carousel_active in Hact. unfold carousel. rewrite Hqc in *. rewrite Hact. cbn [negb].
+  set (cands := candidates (c_n c) h signers) in *.
+  destruct (Z.eqb_spec (Z.of_nat (length cands)) 0) as [E|E].
+  - left. split; [|reflexivity]. destruct cands; [reflexivity|cbn in E; lia].
+  - right. set (sd := i64_wrap _).
+    pose proof (Z.rem_bound_pos (rnd sd) (Z.of_nat (length cands)) (Hrnd sd) ltac:(lia)) as Hi.
+    destruct (Z.ltb_spec (Z.rem (rnd sd) (Z.of_nat (length cands))) 0) as [L|L]; [lia|].
+    destruct (nth_error cands (Z.to_nat (Z.rem (rnd sd) (Z.of_nat (length cands))))) as [l|] eqn:En.
+    + exists l. split; [reflexivity|]. apply nth_error_In in En. now apply candidates_spec in En.
+    + apply nth_error_None in En. lia.
+Qed.
+
+(* no head makes the carousel panic *)
+Lemma carousel_no_panic c cl rnd h round :
+  (1 <= c_n c < 2^32)%Z -> (forall s, 0 <= rnd s)%Z -> exists l, carousel c cl rnd h round = Ok l.
+Proof.
+  intros Hn Hrnd.
+  destruct (carousel_active cl h round) eqn:Ha.
+  - pose proof Ha as Ha'. unfold carousel_active in Ha'. destruct (h_qc h) as [s|] eqn:Hq; [|discriminate].
+    destruct (carousel_active_spec c cl rnd h round s Hq Ha Hrnd) as [[_ ->]|(l & -> & _)]; [|eauto].
+    destruct (rr_valid round (c_n c) Hn) as (l & -> & _). eauto.
+  - rewrite carousel_fallback by assumption. destruct (rr_valid round (c_n c) Hn) as (l & -> & _). eauto.
+Qed.
+
+(* the code before the repair did panic: a head whose certificate has a signature without participants *)
+Lemma carousel_unfixed_panics :
+  exists c cl rnd h round, (1 <= c_n c < 2^32)%Z /\ (forall s, 0 <= rnd s)%Z /\ h_qc h = Some [] /\
+    carousel_unfixed c cl rnd h round = Panic.
+Proof.
+  exists (Build_config 1%N 4%Z 0%Z None), 1%Z, (fun _ => 7%Z), (Build_head 1%N (Some []) [2%N]), 2%N.
+  cbn [c_n h_qc]. split; [lia|]. split; [intros; lia|]. split; [reflexivity|]. vm_compute. reflexivity.
+Qed.
+
 (* the answer does not depend on the replica's identity, its tree, or the order in which the
    certificate lists its signers *)
 Definition head_equiv (h1 h2 : head) : Prop :=
@@ -372,11 +413,12 @@ Section ReputationProofs.
 End ReputationProofs.
 
 (* ------------------------------------------------------------------------------------------ *)
-(* the carousel never panics and never names an unknown replica, whether active or not *)
+(* the carousel never panics and never names an unknown replica, whether active or not; the certificate
+   may list its (configured) signers with repetitions and need not be a quorum *)
 Definition head_ok (n : Z) (h : head) : Prop :=
   match h_qc h with
   | None => True
-  | Some s => NoDup s /\ (num_faulty n < Z.of_nat (length s))%Z /\ Forall (fun i => (1 <= Z.of_N i <= n)%Z) s
+  | Some s => Forall (fun i => (1 <= Z.of_N i <= n)%Z) s
   end.
 
 Lemma carousel_valid c cl rnd h round :
@@ -385,12 +427,11 @@ Lemma carousel_valid c cl rnd h round :
 Proof.
   intros Hn Hok Hrnd.
   destruct (carousel_active cl h round) eqn:Ha.
-  - unfold head_ok in Hok. unfold carousel_active in Ha.
+  - unfold head_ok in Hok. pose proof Ha as Ha'. unfold carousel_active in Ha'.
     destruct (h_qc h) as [s|] eqn:Hq; [|discriminate].
-    destruct Hok as (Hnd & Hlen & Hall).
-    destruct (carousel_member c cl rnd h round s) as (l & Hl & Hin & _); try assumption; try lia.
-    { unfold carousel_active. now rewrite Hq. }
-    exists l. split; [assumption|]. rewrite Forall_forall in Hall. now apply Hall.
+    destruct (carousel_active_spec c cl rnd h round s Hq Ha Hrnd) as [[_ ->]|(l & Hl & Hin & _)].
+    + now apply rr_valid.
+    + exists l. split; [assumption|]. rewrite Forall_forall in Hok. now apply Hok.
   - rewrite carousel_fallback by assumption. now apply rr_valid.
 Qed.
 
